@@ -5,6 +5,6 @@ NAME="$1"; [ -n "$NAME" ] || { echo "usage: mkseedtree.sh <name>"; exit 2; }
 D="/tmp/seed-$NAME"
 git -C /repo worktree add --detach "$D" HEAD >/dev/null 2>&1
 # warm build cache so the workspace test build is incremental
-[ -d /repo/target ] && cp -a /repo/target "$D/target"
+# (no warm target copy: /repo/target has grown to ~10 GB; a cold per-crate build is cheaper than the disk)
 mkdir -p "/tmp/seed-$NAME-out"
 echo "$D"
